@@ -1,5 +1,122 @@
-(* C01 - placeholder while the proofs are developed *)
-From Coq Require Import ZArith List Bool.
-From ExaV Require Import model.Model_Nlri model.Model_Attr model.Model_Encode spec.Spec_Update.
-Theorem C01_placeholder : True. Proof. exact I. Qed.
-Print Assumptions C01_placeholder.
+(* C01 - Sent UPDATEs say exactly what the operator asked for.
+   Statements only; every proof is `exact <lemma>`; assumptions are printed.
+
+   What is proved, for ALL routes of the domain `wf_route` and ALL sessions:
+     model    Model_Encode.encode_announce / encode_withdraw  (one route -> UPDATE body; Model_Attr, Model_Nlri)
+     oracle   Spec_Update.ref_decode                          (RFC 4271/4760/7911/6793/8277/4364/8950 decoder)
+   Route domain (wf_route / wf_nlri / wf_item in Proofs_Encode): ipv4/ipv6 x unicast, multicast, nlri-mpls,
+   mpls-vpn; label stack as ExaBGP builds it (bottom-of-stack bit on the last label); length octet <= 255;
+   next hop of the route family, or IPv6 for an IPv4 route when RFC 8950 is negotiated; any subset of ORIGIN,
+   AS_PATH (segments of 1..255 ASNs), MED, LOCAL_PREF, ATOMIC_AGGREGATE, AGGREGATOR, COMMUNITY, ORIGINATOR_ID,
+   CLUSTER_LIST, EXTENDED/LARGE COMMUNITY, generic attributes with a code ExaBGP's decoder does not know;
+   sessions: any local/peer AS < 2^32 (iBGP or eBGP), ASN4 or not, any ADD-PATH send function, msg size <= 65535.
+   C01_decodes_to_request needs `small_route`: the peer has ASN4, or no ASN above 65535 has to be sent;
+   the remaining case (4-byte ASNs to a 2-byte peer) is C01_as4_to_2byte_peer, at the level of the AS_PATH /
+   AS4_PATH attribute pair.  `mc` = which form of the IPv4/MP classification the tree has (harness reads it):
+   false = the repaired tree; for mc = true the statement is false (C01_multicast_refuted) and holds for every
+   route except ipv4 multicast (C01_decodes_to_request_partial). *)
+From Coq Require Import ZArith Bool List Permutation.
+From ExaV Require Import gen.Gen_NlriRegistry model.Model_Nlri model.Model_Attr model.Model_Encode
+  spec.Spec_Nlri spec.Spec_Update proofs.Proofs_Encode.
+Import ListNotations.
+Open Scope Z_scope.
+
+(* the UPDATE sent for an announced route decodes to exactly that route: no withdrawn route, one announced
+   route of the requested family with the requested prefix / labels / rd, the path id the session dictates,
+   the resolved next hop; the attribute values are (up to order) the given ones - LOCAL_PREF only on iBGP -
+   plus ORIGIN IGP, AS_PATH [] (iBGP) or [local_as] (eBGP), LOCAL_PREF 100 (iBGP) for what is absent *)
+Theorem C01_decodes_to_request : forall ext s r body,
+  wf_route ext s r ->
+  encode_announce false s r = Some body ->
+  exists u, ref_decode (rs_of s ext) body = Some u
+    /\ u_withdrawn u = []
+    /\ u_announced u = [((n_afi (r_nlri r), n_safi (r_nlri r)), sem_nlri (send_pid s (r_nlri r)) false (r_nlri r),
+                         resolve s (n_afi (r_nlri r)) (r_nh r))]
+    /\ Permutation (u_attrs u) (expected_attrs s (r_items r)).
+Proof. intros ext s r body W. exact (announce_decodes' false ext s r body W (or_introl eq_refl)). Qed.
+
+(* the tree that packs ipv4 multicast like unicast: true for everything else ... *)
+Theorem C01_decodes_to_request_partial : forall ext s r body,
+  wf_route ext s r ->
+  ~ (n_afi (r_nlri r) = 1 /\ n_safi (r_nlri r) = 2) ->
+  encode_announce true s r = Some body ->
+  exists u, ref_decode (rs_of s ext) body = Some u
+    /\ u_withdrawn u = []
+    /\ u_announced u = [((n_afi (r_nlri r), n_safi (r_nlri r)), sem_nlri (send_pid s (r_nlri r)) false (r_nlri r),
+                         resolve s (n_afi (r_nlri r)) (r_nh r))]
+    /\ Permutation (u_attrs u) (expected_attrs s (r_items r)).
+Proof. intros ext s r body W H. exact (announce_decodes' true ext s r body W (or_intror H)). Qed.
+
+(* ... and false for 224.0.0.0/24 next-hop 1.2.3.4: the peer decodes an ipv4 UNICAST route *)
+Theorem C01_multicast_refuted :
+  exists body u, encode_announce true mc_sess mc_route = Some body
+    /\ ref_decode (rs_of mc_sess (fun _ _ => false)) body = Some u
+    /\ map (fun a => fst (fst a)) (u_announced u) = [(1, 1)]
+    /\ (n_afi (r_nlri mc_route), n_safi (r_nlri mc_route)) = (1, 2).
+Proof. exact multicast_refuted. Qed.
+
+(* "next-hop self" is the local address of the session (what Neighbor.ip_self gives for the route's AFI) *)
+Theorem C01_next_hop_self : forall s afi ip,
+  resolve s afi NhSelf = (if afi =? 1 then s_self4 s else s_self6 s) /\ resolve s afi (NhIp ip) = ip.
+Proof. intros. split; reflexivity. Qed.
+
+(* RFC 6793 on a 2-byte session: the AS_PATH on the wire holds AS_TRANS in every slot of an ASN > 65535 (and only
+   2-byte values), AS4_PATH is present iff there is such an ASN, and the reconstruction gives the requested path *)
+Theorem C01_as4_to_2byte_peer : forall s ext segs,
+  s_asn4 s = false -> Forall (seg_ok 4294967296) segs -> zlen (pack_segs true segs) < 65536 ->
+  exists ts ras,
+    tlvs (length (pack_item s (IAsPath segs))) (pack_item s (IAsPath segs)) = Some ts
+    /\ interp_all (rs_of s ext) ts = Some ras
+    /\ find_aspath ras = Some (map (fun sg => (fst sg, map (fun v => if 65535 <? v then 23456 else v) (snd sg))) segs)
+    /\ Forall (seg_ok 65536) (trans_path segs)
+    /\ find_as4path ras = (if has_large segs then Some segs else None)
+    /\ merge_as4 (rs_of s ext) ras = [SAsPath segs].
+Proof. exact as4_pair. Qed.
+
+(* ADD-PATH send for the family <-> a path identifier in the decoded route and 4 more octets on the wire;
+   its value is the requested one, or 0 *)
+Theorem C01_pathid : forall s n,
+  match n_pid n with Some b => zlen b = 4 | None => True end ->
+  r_pid (sem_nlri (send_pid s n) false n) = (if s_ap s (n_afi n) (n_safi n) then Some (requested_pid n) else None)
+  /\ zlen (pack_nlri (send_pid s n) n) = zlen (body n) + (if s_ap s (n_afi n) (n_safi n) then 4 else 0).
+Proof. exact pathid_lemma. Qed.
+
+(* withdraw direction: the route is in Withdrawn Routes / MP_UNREACH_NLRI, nothing is announced (so no next hop),
+   and for unicast/multicast no attribute at all (so no default) is sent.  For nlri-mpls / mpls-vpn the code sends
+   the route's attributes with defaults next to MP_UNREACH_NLRI (RFC 4760 allows, does not require that) *)
+Theorem C01_withdraw : forall ext s r body,
+  wf_nlri true (r_nlri r) -> Forall wf_item (r_items r) -> no_nh (r_items r) -> wf_defaults s -> s_msg s <= 65535 ->
+  small_route s (r_items r) ->
+  encode_withdraw false s (r_nlri r) (items_of s r) = Some body ->
+  exists u, ref_decode (rs_of s ext) body = Some u
+    /\ u_withdrawn u = [((n_afi (r_nlri r), n_safi (r_nlri r)), sem_nlri (send_pid s (r_nlri r)) true (r_nlri r))]
+    /\ u_announced u = []
+    /\ (n_safi (r_nlri r) = 1 \/ n_safi (r_nlri r) = 2 -> u_attrs u = []).
+Proof. intros ext s r body W1 W2 W3 W4 W5 W6. exact (withdraw_decodes false ext s r body W1 W2 W3 W4 W5 W6 (or_introl eq_refl)). Qed.
+
+(* COMMUNITY / EXTENDED COMMUNITY (sorted) and LARGE COMMUNITY (sorted, duplicates dropped) carry exactly the
+   requested set of values *)
+Theorem C01_community_sets : forall vs x, (In x (csort vs) <-> In x vs) /\ (In x (csort_nodup vs) <-> In x vs).
+Proof. intros. split; [apply csort_In | apply csort_nodup_In]. Qed.
+
+(* a generic attribute is sent with the flags as written; only the Extended Length bit follows the length *)
+Theorem C01_generic_flags : forall f d, clear16 (eff_flag f d) = clear16 f.
+Proof. exact clear16_eff. Qed.
+
+(* non-vacuity: 2001:db8::/32 rd 65000:1 label 100 path-information 5 next-hop self, as-path [ 65010 4200000000 ],
+   med 5, community [ no-export 65000:1 ] on an iBGP session of AS 70000 with ADD-PATH for ipv6 mpls-vpn is in the
+   domain and is encoded (98 octets) *)
+Example C01_example :
+  wf_route (fun _ _ => false) ex_sess ex_route
+  /\ exists body, encode_announce false ex_sess ex_route = Some body /\ zlen body = 98.
+Proof. exact ex_route_ok. Qed.
+
+Print Assumptions C01_decodes_to_request.
+Print Assumptions C01_decodes_to_request_partial.
+Print Assumptions C01_multicast_refuted.
+Print Assumptions C01_next_hop_self.
+Print Assumptions C01_as4_to_2byte_peer.
+Print Assumptions C01_pathid.
+Print Assumptions C01_withdraw.
+Print Assumptions C01_community_sets.
+Print Assumptions C01_generic_flags.
